@@ -35,6 +35,10 @@ def ops_alphabet():
     A += [{"gate": W("dagger", G("S")), "q": [q]} for q in (0, 2)] + [{"gate": W("power", G("S"), e=3), "q": [q]} for q in (0, 2)]
     A.append({"gate": W("exp", G("RX", 0.3)), "q": [1]})
     A.append({"gate": W("controlled", G("X"), k=2), "q": [2, 0, 1]})
+    # another wrapper sitting on top of a controlled gate (the number of controls is then not what the outermost wrapper shows)
+    A.append({"gate": W("exp", W("controlled", G("X"), k=1)), "q": [1, 0]})
+    A.append({"gate": W("dagger", W("controlled", G("T"), k=1)), "q": [2, 1]})
+    A.append({"gate": W("power", W("controlled", G("SX"), k=1), e=3), "q": [0, 2]})
     return A
 
 
@@ -148,12 +152,20 @@ def controlled_case(case):
     return {"ok": True, "nt": bool(case["ops"]), "ops": 2, "out": "k%d" % k}
 
 
-FACT = {"X": (0, lambda: __import__("orquestra.quantum.circuits", fromlist=["X"]).X), "RX": (1, lambda: __import__("orquestra.quantum.circuits", fromlist=["RX"]).RX),
+FACT = {"GPi": (1, lambda: __import__("orquestra.quantum.circuits", fromlist=["GPi"]).GPi), "X": (0, lambda: __import__("orquestra.quantum.circuits", fromlist=["X"]).X), "RX": (1, lambda: __import__("orquestra.quantum.circuits", fromlist=["RX"]).RX),
         "custom1p": (2, lambda: __import__("mc.gates", fromlist=["custom_definition"]).custom_definition("custom1p")), "U3": (3, lambda: __import__("orquestra.quantum.circuits", fromlist=["U3"]).U3)}
 
 
-def rows_for(npar, count):
-    return [tuple(round(0.1 + 0.37 * i + 0.11 * j, 3) for j in range(npar)) for i in range(count)]
+def rows_for(npar, count, mode="default"):
+    rows = [tuple(round(0.1 + 0.37 * i + 0.11 * j, 3) for j in range(npar)) for i in range(count)]
+    if mode == "zero-rows":      # a row of zeros is a row like any other (angle 0 is still a gate): second row 0.0s, last row int 0s
+        if count >= 2:
+            rows[1] = (0.0,) * npar
+        if count >= 1:
+            rows[-1] = (0,) * npar
+    elif mode == "all-zero":
+        rows = [(0.0,) * npar for _ in range(count)]
+    return rows
 
 
 def op_view(op):
@@ -166,9 +178,11 @@ def layer_case(case):
     npar, get = FACT[case["f"]]
     f = get()
     n = case["n"]
-    rows = rows_for(npar, n) if npar else None
+    rows = rows_for(npar, n, case.get("rows", "default")) if npar else None
     rows_before = list(rows) if rows is not None else None
     c = create_layer_of_gates(n, f, rows)
+    if c.n_qubits != n and n > 0:
+        return {"ok": False, "msg": "layer over %d qubits has width %d" % (n, c.n_qubits), "sig": "layer:width"}
     got = [op_view(o) for o in c.operations]
     name = f.name if npar == 0 else f(*rows_for(npar, 1)[0]).name
     exp = [(name, tuple(float(x) for x in (rows[i] if rows else ())), (i,)) for i in range(n)]
@@ -189,7 +203,7 @@ def apply_case(case):
     before = csnap(base)
     qs = case["qs"]
     distinct = sorted(set(qs))
-    rows = rows_for(npar, len(distinct)) if npar else None
+    rows = rows_for(npar, len(distinct), case.get("rows", "default")) if npar else None
     import warnings
     with warnings.catch_warnings():
         warnings.simplefilter("ignore")
@@ -256,9 +270,10 @@ def run(run):
     if not thorough:
         cc = [c for c in cc if len(c["ops"]) <= 1] + [c for i, c in enumerate(cc) if len(c["ops"]) == 2 and i % 5 == 0]
     secs.append(Section("controlled", cc, controlled_case, horizon=300, desc="controlled(k) for every k in 0..n"))
-    secs.append(Section("layers", [{"n": n, "f": f} for n in range(0, 5) for f in FACT], layer_case, desc="create_layer_of_gates for n in 0..4 x factories with 0..3 parameters"))
+    secs.append(Section("layers", [{"n": n, "f": f, "rows": rm} for n in range(0, 6) for f in FACT for rm in ("default", "zero-rows", "all-zero")], layer_case,
+                        desc="create_layer_of_gates for n in 0..5 x factories with 0..3 parameters x row sets (distinct rows, rows of zeros)"))
     Q = [0, 1, 2, 5, 8]
     qlists = [list(c) for k in range(0, 4) for c in itertools.product(Q, repeat=k)]
-    secs.append(Section("apply_to_qubits", [{"qs": qs, "f": f, "base": b} for qs in qlists for f in FACT for b in range(3)], apply_case, desc="apply_gate_to_qubits on every list of <=3 qubits over {0,1,2,5,8}"))
+    secs.append(Section("apply_to_qubits", [{"qs": qs, "f": f, "base": b, "rows": rm} for qs in qlists for f in FACT for b in range(3) for rm in (("default", "zero-rows") if FACT[f][0] else ("default",))], apply_case, desc="apply_gate_to_qubits on every list of <=3 qubits over {0,1,2,5,8}"))
     secs.append(Section("ancilla", [{**c, "k": k} for c in circs if len(c["ops"]) <= 1 for k in range(0, 4)], ancilla_case, horizon=300, desc="add_ancilla_register for k in 0..3"))
     run.run_sections(secs)
